@@ -839,6 +839,17 @@ func (e *faultseqEngine) plan(seed uint64, tier string) []fsCase {
 				default:
 					cases = append(cases, fsCase{c, []Fault{{Pos: k, Call: call, Kind: kind}}})
 				}
+				if kind == "err" && call != cSign && call != cReadAt {
+					// the same failure with the identity the operating system gives it (what errors.Is / os.IsNotExist look at).
+					// One exception: the top-level getters of package efi define "the variable file does not exist" as "not set",
+					// so ENOENT at their open step is not a failure.
+					for _, en := range []string{"enoent", "eintr"} {
+						if en == "enoent" && (call == cOpen || call == cOpenFile) && len(c.API) > 4 && c.API[:4] == "efi." {
+							continue
+						}
+						cases = append(cases, fsCase{c, []Fault{{Pos: k, Call: call, Kind: kind, Errno: en}}})
+					}
+				}
 			}
 		}
 	}
@@ -878,6 +889,12 @@ func (e *faultseqEngine) plan(seed uint64, tier string) []fsCase {
 				continue
 			}
 			f := Fault{Pos: k, Call: rc.calls[k], Kind: Pick(r, kinds), Arg: Pick(r, []int{0, 1, 2, 3, 5, 8, 1 << 30}), Persist: r.Chance(1, 3)}
+			if r.Chance(1, 3) && f.Call != cSign && f.Call != cReadAt {
+				f.Errno = Pick(r, []string{"enoent", "eintr", "eio"})
+				if f.Errno == "enoent" && (f.Call == cOpen || f.Call == cOpenFile) && len(rc.c.API) > 4 && rc.c.API[:4] == "efi." {
+					f.Errno = "eio"
+				}
+			}
 			fs = append(fs, f)
 		}
 		if len(fs) == 0 {
